@@ -101,6 +101,7 @@ def run(tier):
             chk.inconclusive('no trace recorded for %s/%s' % (cls, scen), {'stderr': res['stderr'][-600:]})
     for c in cases:
         judge(chk, c)
+    lp.require_classes(chk, cases, lp.ALL, 'terminate-matrix')
     chk.extra['landing_functions'] = {k: sorted(v) for k, v in chk.extra.get('landing_functions', {}).items()}
     idle_cases(chk, tier)
     chk.assumptions = ['CPython delivers asynchronous exceptions only at eval-breaker polls; the enumerated events are those polls',
